@@ -22,7 +22,8 @@ fn main() {
             .replace("std::fs::", "simkit::shim::fs::")
             .replace("std::time::SystemTime", "simkit::shim::time::SystemTime")
             .replace("std::time::UNIX_EPOCH", "simkit::shim::time::UNIX_EPOCH")
-            .replace("std::env::temp_dir()", "tempfile::env_temp_dir()");
+            .replace("std::env::temp_dir()", "tempfile::env_temp_dir()")
+            .replace("std::thread::sleep", "simkit::shim::time::sleep");
         // `use std::fs;` / `use std::fs as x;` / `fs` inside a `use std::{..}` group
         let l = if t.starts_with("use std::fs;") || t.starts_with("use std::fs as ") {
             l.replace("use std::fs", "use simkit::shim::fs")
